@@ -67,9 +67,10 @@ theorem F28_two_builders_one_variable :
     ∧ (run Cfg.fixed init3 [.mock 0 0 "A" .ap 0, .mock 1 0 "B" .ap 0, .reset 0, .reset 1]).map (fun s => s.vars 0)
       = some (.fake 0 0) := by decide
 
-/-- F29: a second `Reset` of the same builder writes the old backup over the value the test assigned after the first one -/
-theorem F29_reset_again_clobbers_assignment :
-    (run Cfg.fixed init3 [.mock 0 0 "A" .ap 0, .reset 0, .assign 0 7, .reset 0]).map (fun s => s.vars 0) = some (.val 0) := by
+/-- F29 (repaired in 1956238): a second `Reset` of the same builder no longer writes the old backup over the value the test
+    assigned after the first one -/
+theorem F29_repaired_reset_again_keeps_assignment :
+    (run Cfg.fixed init3 [.mock 0 0 "A" .ap 0, .reset 0, .assign 0 7, .reset 0]).map (fun s => s.vars 0) = some (.val 7) := by
   decide
 
 end C07F
